@@ -89,6 +89,8 @@ pub fn alphabet(prog: &Prog) -> Vec<Action> {
         Action::of(Cmd::BreakAdd(Loc::Abs(target))),
         Action::of(Cmd::BreakRemove(Loc::Abs(target))),
         Action::of(Cmd::BreakAdd(Loc::PcOff(1))),
+        // refused: one word below the origin (whatever it leaves behind shows in `break list`)
+        Action::of(Cmd::BreakAdd(Loc::Abs(first.wrapping_sub(1)))),
         Action::of(Cmd::BreakList),
         Action::of(Cmd::PrintReg(1)),
         Action::of(Cmd::PrintMem(Loc::PcOff(0))),
